@@ -6121,6 +6121,9 @@ class CodegenCtx:
         result = Outputter()
         if self.generic_fail_state in self.dfa.states:
             result.add(f"state->state = {self.dfa.states.index(self.generic_fail_state)};")
+        else:
+            # nothing else in this parser can fail: use the index one past the last state, which both switches answer with FAIL
+            result.add(f"state->state = {len(self.dfa.states)};")
         result.add(f"return {self.program_name.upper()}_FAIL;")
         return result.value()
     
